@@ -250,7 +250,80 @@ class _TupleAssign(ast.NodeTransformer):
         return node
 
 
-KINDS = {"drop_else_after_exit": _DropElseAfterExit, "add_else_after_exit": _AddElseAfterExit, "early_continue": _EarlyContinue,
+class _CompToLoop(ast.NodeTransformer):
+    """name = [elt for t in it if c]   ->   name = []; for t in it: if c: name.append(elt)   (statement-level, one generator)"""
+
+    def _block(self, stmts):
+        out = []
+        for st in stmts:
+            if isinstance(st, ast.Assign) and len(st.targets) == 1 and isinstance(st.targets[0], ast.Name) and isinstance(st.value, ast.ListComp) \
+                    and len(st.value.generators) == 1 and not st.value.generators[0].is_async \
+                    and not any(isinstance(n, ast.Name) and n.id == st.targets[0].id for n in ast.walk(st.value)):
+                g = st.value.generators[0]
+                nm = st.targets[0].id
+                app = ast.Expr(value=ast.Call(func=ast.Attribute(value=ast.Name(id=nm, ctx=ast.Load()), attr="append", ctx=ast.Load()), args=[st.value.elt], keywords=[]))
+                body = [app]
+                for c in reversed(g.ifs):
+                    body = [ast.If(test=c, body=body, orelse=[])]
+                out.append(ast.Assign(targets=[ast.Name(id=nm, ctx=ast.Store())], value=ast.List(elts=[], ctx=ast.Load())))
+                out.append(ast.For(target=g.target, iter=g.iter, body=body, orelse=[]))
+            else:
+                out.append(st)
+        return out
+
+    def generic_visit(self, node):
+        super().generic_visit(node)
+        for f in ("body", "orelse", "finalbody"):
+            v = getattr(node, f, None)
+            if isinstance(v, list) and v and isinstance(v[0], ast.stmt):
+                setattr(node, f, self._block(v))
+        return node
+
+
+class _InlineSingleUse(ast.NodeTransformer):
+    """t = <expr without calls>; <next statement using t once>   ->   next statement with the expression in place
+    (t assigned once and read once in the whole function)"""
+
+    def visit_FunctionDef(self, fn):
+        self.generic_visit(fn)
+        loads, stores = {}, {}
+        for n in ast.walk(fn):
+            if isinstance(n, ast.Name):
+                d = loads if isinstance(n.ctx, ast.Load) else stores
+                d[n.id] = d.get(n.id, 0) + 1
+        params = {a.arg for a in fn.args.args + fn.args.kwonlyargs + fn.args.posonlyargs}
+
+        def block(stmts):
+            out, k = [], 0
+            while k < len(stmts):
+                a = stmts[k]
+                nxt = stmts[k + 1] if k + 1 < len(stmts) else None
+                if nxt is not None and isinstance(a, ast.Assign) and len(a.targets) == 1 and isinstance(a.targets[0], ast.Name) \
+                        and a.targets[0].id not in params and loads.get(a.targets[0].id) == 1 and stores.get(a.targets[0].id) == 1 \
+                        and not any(isinstance(n, (ast.Call, ast.Lambda, ast.ListComp, ast.GeneratorExp, ast.DictComp, ast.SetComp, ast.Yield, ast.Await, ast.NamedExpr)) for n in ast.walk(a.value)) \
+                        and isinstance(nxt, (ast.Assign, ast.Return, ast.Expr, ast.AugAssign)):
+                    uses = [n for n in ast.walk(nxt) if isinstance(n, ast.Name) and n.id == a.targets[0].id and isinstance(n.ctx, ast.Load)]
+                    inside_scope = any(isinstance(n, (ast.Lambda, ast.ListComp, ast.GeneratorExp, ast.DictComp, ast.SetComp)) for n in ast.walk(nxt))
+                    if len(uses) == 1 and not inside_scope:
+                        class R(ast.NodeTransformer):
+                            def visit_Name(s_, n):
+                                return a.value if n is uses[0] else n
+                        out.append(R().visit(nxt))
+                        k += 2
+                        continue
+                out.append(a)
+                k += 1
+            return out
+
+        for holder in ast.walk(fn):
+            for f in ("body", "orelse", "finalbody"):
+                v = getattr(holder, f, None)
+                if isinstance(v, list) and v and isinstance(v[0], ast.stmt):
+                    setattr(holder, f, block(v))
+        return fn
+
+
+KINDS = {"comp_to_loop": _CompToLoop, "inline_single_use": _InlineSingleUse, "drop_else_after_exit": _DropElseAfterExit, "add_else_after_exit": _AddElseAfterExit, "early_continue": _EarlyContinue,
          "hoist_args": _HoistArgs, "tuple_assign": _TupleAssign, "swap_branches": _SwapBranches, "ifexp_to_if": _IfExpToIf, "if_to_ifexp": _IfToIfExp, "flip_compare": _FlipCompare, "hoist_return": _HoistReturn}
 
 
